@@ -645,6 +645,13 @@ def rule_fromstr(ctx):
         norm = str.lower
     ctx.check(R, "from_str/case-normalised", norm is not None, "scrutinee: " + scr, site(CONSTS, m))
     param = [i["pat"]["name"] for i in fn["sig"]["inputs"] if not i.get("self")]
+    # .. and nothing but the case is normalised: the scrutinee is exactly `<input>.to_uppercase()` (or the lower / ascii
+    # variant), viewed as a str - trimming, replacing or mapping characters accepts names the documentation does not list
+    sc2 = sc
+    while sc2["k"] == "MethodCall" and sc2["method"] in ("as_str", "as_ref", "borrow", "deref") and not sc2["args"]:
+        sc2 = strip(sc2["recv"])
+    exact = bool(param) and sc2["k"] == "MethodCall" and sc2["method"] in ("to_uppercase", "to_lowercase", "to_ascii_uppercase", "to_ascii_lowercase") and not sc2["args"] and render(strip(sc2["recv"])) == param[0]
+    ctx.check(R, "from_str/only-the-case-is-normalised", exact, "scrutinee: " + scr, site(CONSTS, m))
     ctx.check(R, "from_str/scrutinee-is-the-input", bool(param) and re.match(r"&?%s\.to_(ascii_)?(upper|lower)case\(\)" % re.escape(param[0]), scr.replace("(", "(").lstrip("(")) is not None or (bool(param) and scr.lstrip("&(").startswith(param[0] + ".")), "scrutinee: " + scr)
     table = {}
     wild_err = False
